@@ -91,7 +91,8 @@ def r10_1(ctx):
         disc = DISCIPLINE.get(name)
         if disc is None:
             writers = [a for a in acc_outside_new if a["mut"] or a["kind"] == "store"]
-            in_lowering = [a for a in acc_outside_new if (a["body"]["crate"], root_path(a["body"])) in lowering or "VisitMut>::visit_mut_expr" in root_path(a["body"])]
+            deciding = lowering | _resolving_bodies(ctx)
+            in_lowering = [a for a in acc_outside_new if (a["body"]["crate"], root_path(a["body"])) in deciding or "VisitMut>::visit_mut_expr" in root_path(a["body"])]
             if writers and not in_lowering:
                 r.ob("field %s is classified" % name, True, "-", "new field, never touched by the JSX builders or anything they call (accessed in %s): it cannot influence a lowering" % sorted({root_path(a["body"]).split("::")[-1] for a in acc_outside_new})[:4])
             elif writers:
@@ -151,6 +152,28 @@ def r10_1(ctx):
             else:
                 r.ob("%s only feeds identifier text" % name, True, "-", why)
     return r
+
+
+def _resolving_bodies(ctx):
+    """what the type-resolution entry points reach (their result is written into the output as well)"""
+    roots = []
+    for role in ("props_extractor", "emits_extractor", "dc_pred"):
+        b = C.role(ctx, role)
+        if b:
+            roots.append((b["crate"], b["path"]))
+    nodes, edges = C.call_graph(ctx)
+    seen = set()
+    st = list(roots)
+    while st:
+        x = st.pop()
+        if x in seen:
+            continue
+        seen.add(x)
+        for y in edges.get(x, ()):
+            if "VisitMut>::visit_mut_" in y[1]:
+                continue
+            st.append(y)
+    return seen
 
 
 def _lowering_bodies(ctx):
@@ -557,6 +580,13 @@ def r10_2(ctx):
             r.ob("static %s" % it["path"], False, "%s:%s" % (it.get("file"), it["sp"][0]), "hand-written static: state outside the visitor")
     r.ob("no hand-written statics in the visitor crate", n == 0, "-", "%d found" % n)
     return r
+
+
+def field_ratchet(why):
+    """R10.1 restricted to "is every mutable visitor field that output-deciding code touches a field with a state discipline on record":
+    shared with the properties whose lowering a new cache / memo / flag on the visitor could make depend on earlier code"""
+    from ..engine import only
+    return only(r10_1, lambda k: k.startswith("field "), why)
 
 
 def rules(ctx):
